@@ -20,6 +20,10 @@ def workdir():
 
 
 def build(chk):
+    # the DocSpec oracle driver (Extract_C02) also contains the regenerated interpreter / GVN tables
+    import tr_c02_interp, tr_c02_gvn
+    tr_c02_interp.main()
+    tr_c02_gvn.main()
     exe = vlib.build_harness('c20_insn', ['c02_insn.c'], units=('mir', 'mir-gen', 'mir2c'), defs=['-DC02_WITH_MIR2C'])
     oracle = c02.Oracle(vlib.ocaml_build('c02', 'Extract_C02', ['c02x'], 'driver_c02.ml'))
     model = c02.Oracle(vlib.ocaml_build('c20', 'Extract_C20', ['c20x'], 'driver_c20.ml'))
